@@ -25,6 +25,10 @@ for {
 
 (`nr > 0` is handled before `er`, so that bytes returned together with an error or EOF are forwarded.)
 
+The read/write loop is `loop`; the function around it (the two `defer`s, the initial deadlines, the exits)
+is a statement list interpreted with an explicit defer stack (`Stmt`, `exec`), so that what an exit tears
+down is computed, not asserted.  `Proxy` is a statement list as well (`PStmt`, `execP`).
+
 Not modelled: the wall-clock values of the deadlines, `SetLinger` on `*net.TCPConn` (the scripted
 connections of the harness are not TCP connections), the global epoch counters of `ProxyStats`.
 -/
